@@ -1,0 +1,12 @@
+//go:build verif
+
+// Machine-checked contracts for package security (comment-only; read by
+// /verif/gocv). Nothing in this file is compiled into the gateway.
+package security
+
+//@ func GenerateRandomString
+//@   requires 0 <= n && n <= 65536
+//@   loop 0 invariant idx: 0 <= i && i <= n && len(ret) == n
+//@   ensures[C18] length: result1 == nil ==> len(result0) == n
+//@   ensures[C18] failed: result1 != nil ==> result0 == "" && randFailed()
+//@   nopanic[C10]
